@@ -4,7 +4,7 @@ import json, os, re
 HERE = os.path.dirname(os.path.dirname(os.path.abspath(__file__)))
 rows = []
 n = late = 0
-for d in sorted(os.listdir(os.path.join(HERE, 'seeded'))):
+for d in sorted(os.listdir(os.path.join(HERE, 'seeded')), key=lambda x: (x.split('-')[0], int(x.split('-m')[1]))):
     m = json.load(open(os.path.join(HERE, 'seeded', d, 'meta.json')))
     need = m.get('what_it_needs_to_manifest', '').replace('|', '/').replace('\n', ' ')
     if len(need) > 240:
